@@ -15,7 +15,8 @@ CHECKS = {
          "interval, merge! of any n>=1 with late greeters, concat! of any n, flatten, share with any number of sinks) and every "
          "configuration reachable under the conformant environment (unbounded nesting and history): greet_once and greet_first of the "
          "trace (readable, monitor-free predicates of MonitorSound.v). combine!: the monitor never records a C01 kind (any arity). "
-         "Programs: pipeline_sound (composition theorem) gives the same for every component of every linear pipeline of any length. "
+         "Programs: the composition theorems (Chain.v, Tree.v) give the same for every component of every linear pipeline of any length and "
+         "of every operator TREE over from_iter/interval/map/filter/scan/take/skip/merge!/concat! (C01_pipeline, C01_program). "
          "The tie to the code is the correspondence check run on every invocation; the extracted monitors also run on the real traces.",
          PROOF_TECH),
  "C02": ("proof", "As C01 for term_final (nothing after a Terminate/Error). share: proved for the environment C12 quantifies over "
@@ -75,8 +76,9 @@ CHECKS = {
          "subscription receives exactly one Error. Independence of subscriptions is C13. Real executors/timers are modelled by the harness's "
          "mock Nurse+Timer (named in the trusted base).", PROOF_TECH),
  "C17": ("proof", "Theorems: no_panic (trace c) / dead c = false in every reachable configuration of every component (every panic!/expect/"
-         "unwrap that depends on state is an APanic branch of the model). Linear pipelines of any length: proved (C17_pipeline, composition "
-         "theorem); operator trees: validated by catch_unwind in the correspondence runs.",
+         "unwrap that depends on state is an APanic branch of the model). Programs: proved by the composition theorems for linear pipelines "
+         "of any length and for every operator tree without combine!/flatten (C17_pipeline, C17_program); trees with combine!/flatten: "
+         "validated by catch_unwind in the correspondence runs.",
          PROOF_TECH),
  "C18": ("proof", "Interleaving model (Threads.v, SC at the granularity of instrumented accesses): exhaustively explored in the extracted model, "
          "compared event by event with real OS threads under the token-passing scheduler through the cfg(callbag_verif) hooks. Invariant "
